@@ -136,7 +136,7 @@ def _job(comm, histories, root):
 def _run_histories(histories, seed=None):
     root = tempfile.mkdtemp(prefix="c26_")
     try:
-        res = fm.run(NRANKS, _job, histories, root, seed=seed, timeout=900.0)
+        res = fm.run(NRANKS, _job, histories, root, seed=seed, timeout=150.0 * fm.load_factor())
     finally:
         shutil.rmtree(root, ignore_errors=True)
     return res
@@ -469,9 +469,10 @@ def _dist_judge(c, per):
 def _run_dist(cases):
     root = tempfile.mkdtemp(prefix="c26d_")
     try:
-        return fm.run(NRANKS, _dist_job, cases, root, seed=None, timeout=600.0)
+        res = fm.run(NRANKS, _dist_job, cases, root, seed=None, timeout=100.0 * fm.load_factor())
     finally:
         shutil.rmtree(root, ignore_errors=True)
+    return res
 
 
 def _stat_oracle(case):
